@@ -72,6 +72,13 @@ def _b(x):
     return 1 if x else 0
 
 
+def _as_text(x):
+    """the public API accepts text as well as bytes (Traph.__encode): every third ASCII LRU is handed over as str"""
+    if isinstance(x, bytes) and len(x) % 3 == 0 and all(c < 128 for c in x):
+        return x.decode("ascii")
+    return x
+
+
 class Impl(object):
     """One index under test. backend: 'f' (folder on disk) or 'm' (memory)."""
 
@@ -193,7 +200,7 @@ class Impl(object):
                 return 1
             return self.call(go)
         if op == 2:
-            return self.call(lambda: self.report(t.add_page(a[0], crawled=bool(a[1]))))
+            return self.call(lambda: self.report(t.add_page(_as_text(a[0]), crawled=bool(a[1]))))
         if op == 3:
             return self.call(lambda: self.report(t.add_pages(list(a[0]), crawled=bool(a[1]))))
         if op == 4:
@@ -223,16 +230,16 @@ class Impl(object):
             return self.call(lambda: _b(t.remove_webentity_creation_rule(a[0])))
         # ---- reads ----
         if op == 20:
-            return self.call(lambda: t.retrieve_webentity(a[0]))
+            return self.call(lambda: t.retrieve_webentity(_as_text(a[0])))
         if op == 21:
-            return self.call(lambda: t.retrieve_prefix(a[0]))
+            return self.call(lambda: t.retrieve_prefix(_as_text(a[0])))
         if op == 22:
             def go():
                 r = t.get_potential_prefix(a[0])
                 return None if r is False else (r if isinstance(r, bytes) else (b"" if r == "" else r))
             return self.call(go)
         if op == 23:
-            return self.call(lambda: t.get_webentity_by_prefix(a[0]))
+            return self.call(lambda: t.get_webentity_by_prefix(_as_text(a[0])))
         if op == 24:
             return self.call(lambda: [[p["lru"], _b(p["crawled"])] for p in t.get_webentity_pages(a[0], list(a[1]))])
         if op == 25:
